@@ -737,10 +737,15 @@ func (vc *VC) scriptNeed(o *Obligation, wantModel bool) (string, map[string]bool
 	asyms := make([][]string, o.Cut)
 	for i := 0; i < o.Cut; i++ {
 		seen := map[string]bool{}
-		f := func(s string) {
-			if _, ok := vc.defIdx[s]; ok && !seen[s] {
+		var f func(s string)
+		f = func(s string) {
+			if d, ok := vc.defIdx[s]; ok && !seen[s] {
 				seen[s] = true
 				asyms[i] = append(asyms[i], s)
+				// names introduced by the specification layer (sf_*) stand for the terms they abbreviate
+				if d.Body != "" && strings.HasPrefix(s, "sf_") {
+					termSyms(d.Body, f)
+				}
 			}
 		}
 		termSyms(vc.assumes[i].Body, f)
